@@ -32,7 +32,7 @@ ENTRIES = {'single': ['send', 'call', '__call__', 'proxy'], 'notification': ['se
            'batch': ['send', 'batch.call', 'batch.proxy()', 'batch.proxy.call']}
 
 
-TRACER_STYLES = ['full', 'full', 'super', 'partial', 'logging-first', 'instance-hooks']
+TRACER_STYLES = ['full', 'full', 'super', 'partial', 'logging-first', 'instance-hooks', 'logging-subclass-last']
 
 
 def strategy_for(n: int) -> Dict[str, Any]:
@@ -64,7 +64,7 @@ class C19(Check):
                         'kind/notification', 'client/sync', 'client/async', 'attempts>=2', 'outcome/base-exc', 'outcome/identity',
                         'outcome/not-json', 'outcome/not-response', 'entry/send', 'entry/call', 'entry/proxy', 'entry/notify',
                         'entry/batch.call', 'entry/batch.proxy()', 'entry/batch.proxy.call', 'caller/inside-except-block',
-                        'tracer-style/super', 'tracer-style/partial', 'tracer-style/logging-first', 'tracer-style/instance-hooks', 'strict/on', 'strict/off']
+                        'tracer-style/super', 'tracer-style/partial', 'tracer-style/logging-first', 'tracer-style/instance-hooks', 'tracer-style/logging-subclass-last', 'strict/on', 'strict/off']
 
     def _words(self, maxn: int, shard: int = 0, nshards: int = 1):
         i = 0
@@ -215,7 +215,7 @@ class C19(Check):
         import contextlib
         from pbt import serverharness as sh
         # with the library's LoggingTracer configured, the library loggers run at DEBUG (its records are really produced and formatted)
-        with ch.captured_sleeps(), (sh.debug_logging() if style == 'logging-first' else contextlib.nullcontext()):
+        with ch.captured_sleeps(), (sh.debug_logging() if style in ('logging-first', 'logging-subclass-last') else contextlib.nullcontext()):
             try:
                 value, exc = ch.call(kind, fn), None
             except BaseException as e:  # noqa
